@@ -127,7 +127,7 @@ class Session:
             except sl_ms.Error as e:
                 return ("exc", "Error", str(e))
             except impl.CpuLimit:
-                return ("exc", "CpuLimit", "call did not return within 8 s of CPU time")
+                return ("exc", "CpuLimit", "call did not return within 3 s of CPU time")
             except Exception as e:  # noqa: BLE001
                 return ("exc", impl.exc_bucket(e), repr(e)[:200])
             finally:
